@@ -74,11 +74,13 @@ func (i *IPC) ProxyPolls(arg messages.Arg, response *[]byte) error {
 
 	if !relayPatternSupported {
 		i.ctx.metrics.lock.Lock()
+		vhook("m.locked", "ipc")
 		i.ctx.metrics.proxyPollWithoutRelayURLExtension++
 		i.ctx.metrics.promMetrics.ProxyPollWithoutRelayURLExtensionTotal.With(prometheus.Labels{"nat": natType, "type": proxyType}).Inc()
 		i.ctx.metrics.lock.Unlock()
 	} else {
 		i.ctx.metrics.lock.Lock()
+		vhook("m.locked", "ipc")
 		i.ctx.metrics.proxyPollWithRelayURLExtension++
 		i.ctx.metrics.promMetrics.ProxyPollWithRelayURLExtensionTotal.With(prometheus.Labels{"nat": natType, "type": proxyType}).Inc()
 		i.ctx.metrics.lock.Unlock()
@@ -86,6 +88,7 @@ func (i *IPC) ProxyPolls(arg messages.Arg, response *[]byte) error {
 
 	if !i.ctx.CheckProxyRelayPattern(relayPattern, !relayPatternSupported) {
 		i.ctx.metrics.lock.Lock()
+		vhook("m.locked", "ipc")
 		i.ctx.metrics.proxyPollRejectedWithRelayURLExtension++
 		i.ctx.metrics.promMetrics.ProxyPollRejectedForRelayURLExtensionTotal.With(prometheus.Labels{"nat": natType, "type": proxyType}).Inc()
 		i.ctx.metrics.lock.Unlock()
@@ -105,6 +108,7 @@ func (i *IPC) ProxyPolls(arg messages.Arg, response *[]byte) error {
 		log.Println("Error processing proxy IP: ", err.Error())
 	} else {
 		i.ctx.metrics.lock.Lock()
+		vhook("m.locked", "ipc")
 		i.ctx.metrics.UpdateCountryStats(remoteIP, proxyType, natType)
 		i.ctx.metrics.RecordIPAddress(remoteIP)
 		i.ctx.metrics.lock.Unlock()
@@ -117,6 +121,7 @@ func (i *IPC) ProxyPolls(arg messages.Arg, response *[]byte) error {
 
 	if offer == nil {
 		i.ctx.metrics.lock.Lock()
+		vhook("m.locked", "ipc")
 		i.ctx.metrics.proxyIdleCount++
 		i.ctx.metrics.promMetrics.ProxyPollTotal.With(prometheus.Labels{"nat": natType, "status": "idle"}).Inc()
 		i.ctx.metrics.lock.Unlock()
@@ -197,6 +202,7 @@ func (i *IPC) ClientOffers(arg messages.Arg, response *[]byte) error {
 		vhook("c.sent", snowflake.id)
 	} else {
 		i.ctx.metrics.lock.Lock()
+		vhook("m.locked", "ipc")
 		i.ctx.metrics.clientDeniedCount++
 		i.ctx.metrics.promMetrics.ClientPollTotal.With(prometheus.Labels{"nat": offer.natType, "status": "denied"}).Inc()
 		if offer.natType == NATUnrestricted {
@@ -214,6 +220,7 @@ func (i *IPC) ClientOffers(arg messages.Arg, response *[]byte) error {
 	case answer := <-snowflake.answerChannel:
 		vhook("c.answer", answer)
 		i.ctx.metrics.lock.Lock()
+		vhook("m.locked", "ipc")
 		i.ctx.metrics.clientProxyMatchCount++
 		i.ctx.metrics.promMetrics.ClientPollTotal.With(prometheus.Labels{"nat": offer.natType, "status": "matched"}).Inc()
 		i.ctx.metrics.lock.Unlock()
@@ -221,6 +228,7 @@ func (i *IPC) ClientOffers(arg messages.Arg, response *[]byte) error {
 		err = sendClientResponse(resp, response)
 		// Initial tracking of elapsed time.
 		i.ctx.metrics.lock.Lock()
+		vhook("m.locked", "ipc")
 		i.ctx.metrics.clientRoundtripEstimate = time.Since(startTime) / time.Millisecond
 		i.ctx.metrics.lock.Unlock()
 	case <-time.After(time.Second * ClientTimeout):
